@@ -115,6 +115,34 @@ func runC14(c *Ctx) {
 	}
 	r.Floor("R14.2", "SetProperty calls in renderer packages", nk, 3)
 
+	// R14.5 renderers never add to the error list themselves
+	r.Rule("R14.5", "renderer packages report failures through their return value, never by adding to the table's error list")
+	nadd := 0
+	for _, fn := range c.LibFuncs() {
+		if funcPkgPath(fn) == modPath {
+			continue
+		}
+		eachInstr(fn, func(in ssa.Instruction) {
+			cc := callCommon(in)
+			if cc == nil {
+				return
+			}
+			name := ""
+			if cc.IsInvoke() {
+				name = cc.Method.Name()
+			} else if f := cc.StaticCallee(); f != nil {
+				name = f.Name()
+			}
+			if name == "AddError" || name == "AddErrorList" {
+				nadd++
+				r.Check("R14.5", FuncName(fn), "call to "+name, in.Pos(), false, "a render grows the table's error list: the list differs after every render")
+			}
+		})
+	}
+	if nadd == 0 {
+		r.Check("R14.5", "renderer packages", "no call to AddError/AddErrorList", 0, true, "")
+	}
+
 	// R14.3 / R14.4 built-in callbacks
 	ncb := 0
 	for _, fn := range c.LibFuncs() {
@@ -176,4 +204,23 @@ func runC14(c *Ctx) {
 		r.Check("R14.4", FuncName(fn), "returns an error only when its target is not a *Cell", fn.Pos(), okErr, "")
 	}
 	r.Floor("R14.3", "built-in render callbacks", ncb, 2)
+	// premise of R14.3: SetProperty really replaces one key and keeps every other key of the owner (C12's rules on
+	// the property chain), otherwise the measuring pass of the next render wipes properties the user set in between
+	{
+		sub := &Report{Rules: map[string]string{}, known: map[string]string{}, knownSeen: map[string]bool{}, Extra: map[string]interface{}{}, c: c}
+		saved := c.R
+		c.R = sub
+		runC12(c)
+		c.R = saved
+		n := 0
+		for _, o := range sub.Obs {
+			if o.Rule != "R12.1" && o.Rule != "R12.2" {
+				continue
+			}
+			n++
+			ob := r.Check("R14.3", o.Func, "property-store premise ("+o.Rule+"): "+o.Construct, 0, o.Verdict == "discharged", "re-measuring a cell on the next render would disturb the owner's other properties: "+o.Detail)
+			ob.Pos = o.Pos
+		}
+		r.Floor("R14.3", "property-store premises", n, 8)
+	}
 }
